@@ -28,24 +28,27 @@ class RichWavEditor:
         wavs_to_add = [x for x in wav.wavs]
         wavs_already_in_wav_section = {x.path_in_chk.value for x in wav.wavs}
         for i, wav_file in enumerate(unique_wav_files):
-            if not allocable_ids:
-                msg = (
-                    f"No more allocable IDs left.  Have we run out of WAV files?  "
-                    f"{i + 1} remaining WAV files that cannot be allocated."
-                )
-                self.log.error(msg)
-                raise ValueError(msg)
             if wav_file in wavs_already_in_wav_section:
                 self.log.warning(
                     f"Skipping adding a WAV file because its already in the WAV section: {wav_file}"
                 )
             else:
+                # only a WAV file that needs a new slot can run out of slots
+                if not allocable_ids:
+                    msg = (
+                        f"No more allocable IDs left.  Have we run out of WAV files?  "
+                        f"{i + 1} remaining WAV files that cannot be allocated."
+                    )
+                    self.log.error(msg)
+                    raise ValueError(msg)
                 wavs_to_add.append(
                     RichWav(
                         _path_in_chk=RichString(_value=wav_file),
                         _index=allocable_ids.pop(),
                     )
                 )
+                # a path repeated in the same batch reuses the slot just allocated
+                wavs_already_in_wav_section.add(wav_file)
         return RichWavSection(_wavs=wavs_to_add)
 
     def _build_unique_ordered_wavs(self, wav_files: list[str]) -> list[str]:
